@@ -1035,7 +1035,7 @@ func (c *CreateTableStatement) SQL() string {
 	}
 
 	for _, opt := range c.Options {
-		fmt.Fprintf(sb, " %s=%s", opt.Name, opt.Value)
+		fmt.Fprintf(sb, " %s=%s", opt.Name, safeName(opt.Value))
 	}
 
 	return sb.String()
@@ -1061,7 +1061,7 @@ func (c *CreateIndexStatement) SQL() string {
 
 	if c.Using != "" {
 		sb.WriteString(" USING ")
-		sb.WriteString(c.Using)
+		sb.WriteString(safeName(c.Using))
 	}
 
 	sb.WriteString(" (")
@@ -1714,7 +1714,7 @@ func onConflictSQL(oc *OnConflict) string {
 	}
 	if oc.Constraint != "" {
 		sb.WriteString(" ON CONSTRAINT ")
-		sb.WriteString(oc.Constraint)
+		sb.WriteString(safeName(oc.Constraint))
 	}
 	if oc.Action.DoNothing {
 		sb.WriteString(" DO NOTHING")
